@@ -1933,12 +1933,30 @@ def make_builtins(I):
                 if all(isinstance(x, str) for x in items):
                     yield st, (min(items) if which == "min" else max(items))
                     return
+                if any(isinstance(x, Ref) for x in items):
+                    # e.g. max(2-d array): rows are compared with <, whose truth value is ambiguous (ValueError); lists
+                    # compare lexicographically
+                    raise Unsupported("%s() over containers / arrays" % which)
+                if any(isinstance(x, Opaque) for x in items):
+                    # e.g. max(nan, 1.0) is nan but max(1.0, nan) is 1.0 in CPython (every comparison with NaN is False)
+                    raise Unsupported("%s() over an uninterpreted value (nan)" % which)
                 yield st, exc("TypeError", "unorderable types in %s()" % which)
                 return
-            r = items[0]
+            # min / max return one of their ARGUMENTS, with its own type: max(0, x) is the int 0 or the float x.  Arguments
+            # of one kind are merged into one term; an int against a float splits the path (the merged term would be a
+            # real whatever the outcome, and isinstance / `//` on it would see a float)
+            cur = [(st, items[0])]
             for x in items[1:]:
-                r = ops.zmin(r, x) if which == "min" else ops.zmax(r, x)
-            yield st, r
+                nxt = []
+                for s1, r in cur:
+                    ra, xa = as_arith(r), as_arith(x)
+                    if (is_z3(ra) or is_z3(xa)) and is_intlike(ra) != is_intlike(xa):
+                        for s2, take in I.branch(s1, ops.num_compare("Lt" if which == "min" else "Gt", xa, ra)):
+                            nxt.append((s2, x if take else r))
+                    else:
+                        nxt.append((s1, ops.zmin(r, x) if which == "min" else ops.zmax(r, x)))
+                cur = nxt
+            yield from cur
 
         return fn
 
@@ -1985,7 +2003,17 @@ def make_builtins(I):
         if nd is not None:
             if not isinstance(nd, int):
                 raise Unsupported("round with symbolic ndigits")
-            if is_z3(v):
+            if isinstance(v, bool):
+                v = int(v)
+            if is_z3(v) and z3.is_int(v):
+                # round(int, n) is an INT in CPython: the number itself for n >= 0, the nearest multiple of 10**-n
+                # (ties to the even multiple) for n < 0
+                if nd >= 0:
+                    yield st, v
+                else:
+                    m = 10 ** (-nd)
+                    yield st, ops.z_round_half_even(z3.ToReal(v) / z3.RealVal(m)) * m
+            elif is_z3(v):
                 I.trust("round-ndigits", "A1: round(x, n) = round_half_even(x*10^n)/10^n over the reals")
                 sc = z3.RealVal(10 ** nd) if nd >= 0 else z3.RealVal(Fraction(1, 10 ** (-nd)))
                 vr = z3.ToReal(v) if z3.is_int(v) else v
@@ -2253,6 +2281,18 @@ def make_builtins(I):
             items = st.get(v).items
             if items:
                 yield st, items.pop(0)
+            elif len(a) > 1:
+                yield st, a[1]
+            else:
+                yield st, exc("StopIteration")
+            return
+        if isinstance(v, Ref) and st.get(v).kind == "nd" and st.get(v).__dict__.get("flatiter"):
+            # next(a.flat): numpy.flatiter is an iterator with its own position over the elements in row-major order
+            fe = st.get(v)
+            pos = fe.__dict__.get("cursor", 0)
+            if pos < len(fe.data):
+                fe.cursor = pos + 1
+                yield st, fe.data[pos]
             elif len(a) > 1:
                 yield st, a[1]
             else:
@@ -2549,7 +2589,8 @@ def make_ext_modules(I):
     mth["pi"] = pi
     mth["e"] = Fraction(math.e)  # A1: the float constant math.e as the exact rational it is
     mth["tau"] = 2 * pi
-    mth["inf"] = Opaque("inf")
+    mth["inf"] = M.Inf(1)  # math.inf IS float("inf")
+    mth["nan"] = Opaque("nan")  # the NaN literal (A1: no real value is NaN)
 
     def m_fabs(I, st, a, k):
         v = as_arith(a[0])
@@ -2620,7 +2661,16 @@ def make_ext_modules(I):
     mth["isclose"] = bi("math.isclose", m_isclose)
 
     def m_isnan(I, st, a, k):
-        yield st, False
+        # A1: a real number is never NaN; the NaN literal (float("nan"), np.nan, math.nan) is
+        v = a[0]
+        if isinstance(v, Opaque) and v.desc == "nan":
+            yield st, True
+        elif is_number(v) or isinstance(v, M.Inf):
+            yield st, False
+        elif v is None or isinstance(v, (str, tuple, Ref)):
+            yield st, exc("TypeError", "must be real number")
+        else:
+            raise Unsupported("math.isnan of %r" % (v,))
 
     mth["isnan"] = bi("math.isnan", m_isnan)
 
@@ -2917,7 +2967,9 @@ def make_ext_modules(I):
             if e.kind == "set":
                 return st.alloc(SetE([_plain_copy(st, x, what) for x in e.items]))
             if e.kind == "nd":
-                return st.alloc(NdE(e.shape, [_plain_copy(st, x, what) for x in e.data]))
+                c = e.detached()  # keeps the dtype mark and the (un)known memory layout
+                c.data = [_plain_copy(st, x, what) for x in e.data]
+                return st.alloc(c)
         if isinstance(v, ClassVal) and what == "pickle":
             # classes are pickled by reference (module-level name): the same class object comes back
             return v
